@@ -75,7 +75,7 @@ func (d *simDialer) SetOption(n string, v interface{}) error {
 	defer d.lock.Unlock()
 	switch n {
 	case mangos.OptionMaxRecvSize:
-		if b, ok := v.(int); ok {
+		if b, ok := v.(int); ok && b >= 0 {
 			d.maxRecvSize = b
 			return nil
 		}
@@ -164,7 +164,7 @@ func (l *simListener) SetOption(n string, v interface{}) error {
 	defer l.lock.Unlock()
 	switch n {
 	case mangos.OptionMaxRecvSize:
-		if b, ok := v.(int); ok {
+		if b, ok := v.(int); ok && b >= 0 {
 			l.maxRecvSize = b
 			return nil
 		}
